@@ -441,3 +441,37 @@ fn o5_5_contact_line_arc() {
     assert!(a.is_contacting(&l) == share, "O5.5 line/arc contact is symmetric");
     assert!(a.is_contacting(&a2) == share, "O5.5 two arcs are in contact iff they share an endpoint");
 }
+
+// ---------------------------------------------------------------------------
+// C14: the Fragment-level dispatch of line + bullet circle
+
+//@ harness: o14_6_merge_dispatch_circle props=C14 tier=quick obl=O14.4 timeout=900 mem=12
+//@ desc: Fragment::merge and Fragment::is_contacting on a lattice Line and a bullet Circle (circle at a cell centre, radius 0.25..0.75, vertical or horizontal line of 1..16 quarter-unit steps ending 0..4 steps from the centre): merge(line, circle) and merge(circle, line) both give the same MarkerLine ending at the circle centre (the dispatcher routes both argument orders to Line::merge_circle); is_contacting is symmetric; atan stubbed by atan_axis
+//@ encodes: Fragment::merge, Fragment::is_contacting, Line::merge_circle, Line::is_touching_circle
+#[kani::proof]
+#[kani::stub(std::io::_print, crate::kstub::noop_print)]
+#[kani::stub(f32::atan, crate::kstub::atan_axis)]
+fn o14_6_merge_dispatch_circle() {
+    let vertical: bool = kani::any();
+    let (mx, my) = (any_in(0, 16) * 4 + 2, any_in(5, 16) * 8 + 4);
+    let r8 = any_in(2, 6);
+    let filled: bool = kani::any();
+    let half = any_in(0, 4);
+    let len = any_in(1, 16);
+    let (nx, ny, fx, fy) = if vertical { (mx, my - half, mx, my - half - len) } else { (mx - if half > 2 { 2 } else { half }, my, mx - (if half > 2 { 2 } else { half }) - len, my) };
+    let l = line(p4(nx, ny), p4(fx, fy));
+    let c = circle(p4(mx, my), r8 as f32 * 0.125, filled);
+    let m1 = l.merge(&c);
+    let m2 = c.merge(&l);
+    kani::cover!(m1.is_some(), "the bullet merges");
+    match (m1, m2) {
+        (Some(Fragment::MarkerLine(a)), Some(Fragment::MarkerLine(b))) => {
+            assert!(a.line.start == b.line.start && a.line.end == b.line.end && a.end_marker == b.end_marker && a.start_marker == b.start_marker, "O14.4 line+circle and circle+line merge to the same marker line");
+            assert!(a.line.end == p4(mx, my), "O14.4 the marked end is the bullet centre");
+            assert!(a.line.start == p4(fx, fy), "O14.4 the far end of the line is kept");
+        }
+        (None, None) => {}
+        _ => assert!(false, "O14.4 the merge dispatcher treats both argument orders alike"),
+    }
+    assert!(l.is_contacting(&c) == c.is_contacting(&l), "O14.4 line/circle contact is symmetric");
+}
